@@ -15,7 +15,27 @@ CLAIMED = [
      "technique": "Coq proof (round-trip by induction over gated field layouts) + translator-checked gate signatures + differential correspondence"},
 ]
 
+
+CLAIMED += [
+    {"id": "C05",
+     "text": "Compressed frames: for every payload list and method/level, frames written by compress.Writer are read back by compress.Reader as exactly the payloads under any read sizes; any alteration confined to checksum or body is rejected (CorruptedDataErr with both checksums when lengths are intact) modulo a stated CityHash128 collision; over-limit size fields are rejected before allocation; over every stream and every read history every byte handed out belongs to a verified frame, once, in order (12 theorems, closed under the global context).",
+     "note": COMMON_NOTE + "Codecs and CityHash128 are Section variables (codec round trip is the one hypothesis, used by the round-trip theorems only); when the model is run they are oracle tables recorded from the real libraries. Three reader defects repaired in /repo. Client path and multi-MiB payloads: direct oracle only.",
+     "technique": "Coq proof (invariant + measure induction over the Reader state machine, declarative verified_frame/frames_in spec) + extracted-model correspondence with hash/codec oracle tables + provenance oracle in Go"},
+    {"id": "C14",
+     "text": "For every sequence of ChainBuffer callbacks (append, rewrite or shrink of the uncut tail), zero-copy ChainWrite, caller overwrites and flushes to accepting / failing / short-writing sinks, under every reallocation behaviour of append, each Flush delivers a prefix (complete iff the sink accepts) of the concatenation in call order of everything appended or chained since the previous flush; after a flush, successful or failed, the writer is empty and nothing earlier is written again; cut slices are capacity-limited and never overwritten (9 theorems, closed). Columns and blocks written through WriteColumn/WriteBlock give the same bytes as EncodeColumn/EncodeBlock (direct oracle on the implementation).",
+     "note": COMMON_NOTE + "Writer half: theorems over an explicit heap/slice model of proto/writer.go plus net.Buffers.WriteTo for a non-vectored writer. Column/block path equivalence: direct oracle on ~80 real column kinds x 10 row counts and 600 blocks per quick run (operation-level theorem chained_encoding_eq_buffer_encoding_partial only). Assumes the ChainBuffer contract and no aliasing of chained slices with the staging buffer.",
+     "technique": "Coq proof (refinement of a memory-free concatenation spec by a heap-and-slices model, invariants W1-W3, all histories / reallocation oracles / sinks) + extracted-model correspondence + direct oracle"},
+    {"id": "C19",
+     "text": "ColAuto.Infer never panics on any byte string; whenever it creates a column, that column's Type() does not conflict with the requested type (either order) and a second block of the same type is accepted; ColumnType.Conflicts is total, reflexive, symmetric, honours enum/integer, decimal-by-precision, DecimalN(S), comma-spacing, time-zone and element-wise Array/Nullable/LowCardinality equivalences and reports other different bases as conflicting (22 theorems, closed).",
+     "note": COMMON_NOTE + "time.LoadLocation and strings.ToLower are universally quantified oracles; the inference tables (inferGenerated, method sets, ColumnType constants, switch arms) are regenerated from the source each run and the table-dependent proof steps recomputed; decoding of data by the inferred column is a direct oracle here (proved at model level under C01); nesting depth 10000 is observed, not proved. Two defects repaired in /repo.",
+     "technique": "Coq proof over a statement-level Gallina mirror (fuelled recursion with proved fuel sufficiency, slice bounds as Crash) + regenerated tables + differential correspondence on generated/malformed/exhaustive-short type strings and all ordered Conflicts pairs"},
+    {"id": "C20",
+     "text": "Scalar conversions (Date, Date32, DateTime, DateTime64 at precision 0..9, 128/256-bit integers, IPv4/IPv6, Interval.Add) are exact over each type's documented range: theorems over an executable model mirroring the Go helpers and temporal columns, incl. a days<->civil calendar bijection proved for all days; tied to /repo every run by differential execution of the real helpers against the extracted model plus a direct round-trip oracle.",
+     "note": COMMON_NOTE + "Fixed-offset zones only; Go's time package is modelled (validated against time.Date on every Date32 day each run); Interval seconds/minutes/hours within time.Duration. Defects 14/15 fixed in /repo; Interval quarter = 4 months is a known finding (the pinned test suite asserts it).",
+     "technique": "Coq proof (lia with Euclidean division, finite-domain reflection for the in-era calendar) + extracted-model differential testing + direct oracle in Go"},
+]
+
 _PENDING = "check not built yet in this tree (construction order in DESIGN.md section 11); will be claimed once its props/ file compiles"
 NOT_APPLICABLE = [(i, _PENDING) for i in
-                  ["C01", "C02", "C03", "C04", "C05", "C06", "C07", "C08", "C09", "C10", "C11", "C12", "C13", "C14",
-                   "C15", "C16", "C18", "C19", "C20"]]
+                  ["C01", "C02", "C03", "C04", "C06", "C07", "C08", "C09", "C10", "C11", "C12", "C13",
+                   "C15", "C16", "C18"]]
